@@ -368,6 +368,32 @@ def ray_builders(model, inst, X):
             lambda I, sp=sp: inst(I, 'IndicatorSimplex', sp(), sum_rtol=0),
             [Rat.const(2), Rat.const(1), Rat.const(-1), Rat.const(1) / 2],
             'ray')
+    # per-entry (array) weights 1, 4, 9, 16
+    def spa():
+        return NSpace((4,), 'float64', NA(objarr(
+            [Rat.const(c) for c in (1, 4, 9, 16)]), 'float64'))
+    aw = 'weights 1, 4, 9, 16'
+    B['L2Norm[%s]' % aw] = (
+        lambda I: inst(I, 'L2Norm', spa()),
+        [3 * sig, 2 * sig, Rat.const(0), Rat.const(0)], 'ray')
+    B['LpNorm[p=inf,%s]' % aw] = (
+        lambda I: inst(I, 'LpNorm', spa(), Opaque('np.inf')),
+        [sig, 5 * sig, -9 * sig / 2, Rat.const(0)], 'ray')
+    B['IndicatorLpUnitBall[p=1,%s]' % aw] = (
+        lambda I: inst(I, 'IndicatorLpUnitBall', spa(), 1),
+        [Rat.const(0), Rat.const(2), Rat.const(-1), Rat.const(1) / 4],
+        'ray')
+    B['IndicatorLpUnitBall[p=2,%s]' % aw] = (
+        lambda I: inst(I, 'IndicatorLpUnitBall', spa(), 2),
+        [Rat.const(3), Rat.const(2), Rat.const(0), Rat.const(0)], 'ray')
+    B['IndicatorLpUnitBall[p=inf,%s]' % aw] = (
+        lambda I: inst(I, 'IndicatorLpUnitBall', spa(), Opaque('np.inf')),
+        [Rat.const(3), Rat.const(-4), Rat.const(1) / 2, Rat.const(0)],
+        'ray')
+    B['IndicatorSimplex[%s]' % aw] = (
+        lambda I: inst(I, 'IndicatorSimplex', spa(), sum_rtol=0),
+        [Rat.const(2), Rat.const(1), Rat.const(-1), Rat.const(1) / 2],
+        'ray')
     # product spaces of two components with two points each; entries in
     # the order (component 0: points 0, 1; component 1: points 0, 1)
     for wt, t in ((None, 'pspace'), ([Rat.const(4), Rat.const(9)],
